@@ -167,3 +167,90 @@ Print Assumptions c03_verdict_depends_only_on_firing.
 Print Assumptions c03_order_independent.
 Print Assumptions c03_inhibitedBy_sound.
 Print Assumptions c03_single_index_refuted_a.
+
+(* ====================================================================================================== *)
+(* END TO END: the inhibitor composed with the notification pipeline of a group (Model/MutePipe.v).      *)
+(* ====================================================================================================== *)
+(* "An alert ... is WITHHELD FROM NOTIFICATIONS exactly when ...": the product of the inhibitor model and the timed
+   group model of C01/C04/C05, glued as notify.go glues MuteStage(inhibitor) to the receiver stage (a flush hands its
+   alerts to the inhibitor's Mutes at the flush's clock value; what it mutes never reaches an integration). One
+   clock; ANY interleaving of the inhibitor's operations (alert updates arriving on its subscription in any order and
+   with any delay relative to the dispatcher's copy, GC of any subset of rules, restarts with updates arriving during
+   the load) with the group's events (inserts, ticks, dedup reads, delivery attempts with any outcome, context
+   expiry, log GC / gossip); [other] = what the later mute stages (time intervals, silences) drop; [lbl] = the label
+   set of an alert id. *)
+From AM Require Import Model.Group Proofs.GroupProofs Model.MutePipe Proofs.MutePipeProofs.
+
+Definition inh_verdict (re : string -> string -> bool) (lbl : Z -> list (string * string))
+  (ih : list irule) (tau now a : Z) : bool := muted re ih (lbl a) now.   (* Inhibitor.Mutes reads the clock, not the tick value *)
+
+Lemma mono_is_mono_from t0 (l : list (Z * Inhibit.op)) : mono t0 l -> mono_from t0 l.
+Proof. revert t0. induction l as [|[t o] l IH]; intros t0 H; [exact I|]. destruct H as [H1 H2]. split; [exact H1|apply IH, H2]. Qed.
+Lemma mlast_is_last_time t0 (l : list (Z * Inhibit.op)) : mlast t0 l = last_time t0 l.
+Proof. revert t0. induction l as [|[t o] l IH]; intros t0; [reflexivity|]. cbn. apply IH. Qed.
+Lemma hist_ok_prefix a : forall pre b, hist_ok pre (a ++ b) -> hist_ok pre a.
+Proof. induction a as [|x a IH]; intros pre b H; [exact I|]. destruct H as [H1 H2]. split; [exact H1|]. eapply IH, H2. Qed.
+
+(* INHIBITED ALERTS ARE NEVER NOTIFIED. Along every accepted run of the product, every notification attempt of every
+   integration carries only alerts that the documented rule does NOT inhibit, judged on the alerts firing — among the
+   updates the inhibitor had received — at the instant tf of the flush that produced the batch (the latest tick
+   before the attempt). *)
+Theorem c03_inhibited_alert_is_never_notified re cfgs lbl cfg t0 h P outs i r sent oc :
+  mprun (Inhibit.step re) (inh_verdict re lbl) cfg (mpinit cfg (map new_rule cfgs) t0) h = Some (P, outs) ->
+  hist_ok [] (mview h) ->
+  In (ONotify i r sent oc) outs ->
+  exists h0 tf tau other h0' ta h2,
+    h = (h0 ++ (tf, MTick tau other) :: h0') ++ (ta, MGrp (EAttempt i oc)) :: h2 /\
+    no_tick h0' /\ tf <= ta /\
+    forall f, In f sent -> ~ inhibited re cfgs (firing (mview h0) tf) (lbl (f_id f)).
+Proof.
+  intros Hrun Hok Hin.
+  destruct (muted_never_notified _ _ cfg _ t0 h P outs i r sent oc Hrun Hin)
+    as (h1 & ta & h2 & P1 & o1 & tauf & tf & Mf & -> & Hr1 & Hfl & Hle & Hv).
+  destruct (flush_ghost _ _ cfg h1 _ _ _ Hr1) as [[Hn _]|(h0 & tf' & tau & other & h0' & P0 & o0 & -> & Hr0 & Hfl' & Hnt & Hck)].
+  { rewrite Hfl in Hn. discriminate. }
+  rewrite Hfl in Hfl'. injection Hfl' as <- <- ->.
+  destruct (mprun_muter _ _ cfg h0 _ _ _ Hr0) as (Hm & Hmono & Hlast). cbn [mpinit mp_m mp_g] in Hm, Hmono, Hlast.
+  change (s_clock (init cfg t0)) with t0 in Hmono, Hlast.
+  exists h0, tf, tauf, other, h0', ta, h2. split; [reflexivity|]. split; [exact Hnt|]. split; [exact Hle|].
+  intros f Hf Hinh. specialize (Hv f Hf). unfold inh_verdict in Hv. rewrite Hm in Hv.
+  assert (Hok0 : hist_ok [] (mview h0)).
+  { rewrite !mview_app in Hok. rewrite <- app_assoc in Hok. exact (hist_ok_prefix _ _ _ Hok). }
+  pose proof (c03_mutes_iff_spec re cfgs (mview h0) t0 tf (lbl (f_id f)) (mono_is_mono_from _ _ Hmono) Hok0) as Hspec.
+  rewrite <- mlast_is_last_time in Hspec. specialize (Hspec ltac:(lia)).
+  apply Hspec in Hinh. unfold Inhibit.run in Hinh. unfold mfold in Hv. rewrite Hv in Hinh. discriminate.
+Qed.
+
+(* ... AND NOTHING ELSE IS WITHHELD by this stage: the batch that leaves a flush is exactly the group's alerts that the
+   inhibitor does not mute at that instant (c03_mutes_iff_spec: = that the rule does not inhibit) and the later
+   stages do not drop. *)
+Theorem c03_flush_drops_exactly_the_inhibited re lbl cfg P t tau other P' o :
+  mpstep (Inhibit.step re) (inh_verdict re lbl) cfg P t (MTick tau other) = Some (P', o) ->
+  exists g' fl', s_group (mp_g P') = Some g' /\ gr_flight g' = Some fl' /\ fl_start fl' = t /\
+    mp_flush P' = Some (tau, t, mp_m P) /\ mp_m P' = mp_m P /\ o = [OFlush (fl_all fl')] /\
+    forall f, In f (fl_post fl') <->
+              In f (fl_all fl') /\ muted re (mp_m P) (lbl (f_id f)) t = false /\ ~ In (f_id f) other.
+Proof. exact (tick_post_exact (Inhibit.step re) (inh_verdict re lbl) cfg P t tau other P' o). Qed.
+
+(* the product is an accepted run of the group model: every theorem of C01 / C04 / C05 / C06 applies to it *)
+Theorem c03_pipeline_is_a_group_run re lbl cfg h P P' outs :
+  mprun (Inhibit.step re) (inh_verdict re lbl) cfg P h = Some (P', outs) ->
+  Group.run cfg (mp_g P) (gview (Inhibit.step re) (inh_verdict re lbl) cfg P h) = Some (mp_g P', outs).
+Proof. exact (mprun_proj (Inhibit.step re) (inh_verdict re lbl) cfg h P P' outs). Qed.
+
+(* ---------- non-vacuity: source (id 1) and target (id 2) fire in one group; the flush notifies the source only ---------- *)
+Definition px_lbl (a : Z) : list (string * string) := if a =? 1 then ex_s1 else ex_t.
+Definition px_cfg : gcfg := mkG 10 50 1000 20 5000 [mkI true].
+Definition px_hist : list (Z * mev (mop := Inhibit.op)) :=
+  [ (0, MOp (OProcess (Inhibit.mkA ex_s1 1 (60 * ex_min) 1))); (0, MGrp (EInsert (Group.mkA 1 0 (60 * ex_min) 0)));
+    (5, MOp (OProcess (Inhibit.mkA ex_t 5 (60 * ex_min) 5))); (5, MGrp (EInsert (Group.mkA 2 5 (60 * ex_min) 5)));
+    (10, MTick 10 []); (10, MGrp (EDedup 0)); (11, MGrp (EAttempt 0 OK)); (11, MGrp EFlushEnd) ].
+Example c03_pipeline_nonvacuous :
+  hist_ok [] (mview px_hist) /\
+  option_map snd (mprun (Inhibit.step ex_re) (inh_verdict ex_re px_lbl) px_cfg (mpinit px_cfg (map new_rule [ex_rule]) 0) px_hist) =
+  Some [ OFlush [mkF 1 false 0; mkF 2 false 5]; ONotify 0 RFirst [mkF 1 false 0] OK; OLog 0 [1] [] 11; OFlushEnd true ].
+Proof. split; [apply hist_okb_sound; vm_compute; reflexivity|vm_compute; reflexivity]. Qed.
+
+Print Assumptions c03_inhibited_alert_is_never_notified.
+Print Assumptions c03_flush_drops_exactly_the_inhibited.
+Print Assumptions c03_pipeline_is_a_group_run.
